@@ -412,7 +412,9 @@ class Ctx:
                 if k not in self.known_hits:
                     self.known_hits.append(k)
                 return False
-        if len(self.violations) >= 20:
+        # cap per kind, so that early no-failing-input disagreements can never crowd out concrete inputs
+        n_same = sum(1 for v in self.violations if v["nfi"] == bool(no_failing_input))
+        if n_same >= (12 if no_failing_input else 30):
             return True
         os.makedirs(REPLAY, exist_ok=True)
         idx = len(self.violations)
@@ -452,6 +454,7 @@ def finish(ctx, level="proof"):
                 continue
             seen_nfi.add(v["unit"])
         kept.append(v)
+    kept.sort(key=lambda v: v["nfi"])          # concrete failing inputs first
     ctx.violations = kept[:8]
     for v in ctx.violations:
         line = "VIOLATION property=%s replay=%s" % (ctx.prop, v["path"])
